@@ -10,7 +10,7 @@ Variable nprovides : nat -> nat.
 Variable pi0 : nat.
 Definition b0 : bst := {| nodes := [NProv pi0]; red := fun _ => []; out := fun _ => []; pn := []; an := []; queue := [0] |}.
 
-Lemma b0_inv : inv requires nprovides b0 [] None.
+Lemma b0_inv : inv requires pm nprovides b0 [] None.
 Proof.
   constructor; unfold b0; cbn [nodes red out pn an queue].
   - intros n. simpl. split; [intros H; left; left; lia | intros [[H|[]]|[[]|(k & H)]]; [lia|discriminate]].
@@ -28,5 +28,12 @@ Proof.
   - intros pi n [].
   - intros t n [].
   - intros c i m sx pi H. destruct i; discriminate.
+  - intros n t H. destruct n as [|n]; simpl in H; [discriminate | destruct n; discriminate].
+  - constructor.
+  - intros t n [].
+  - intros c i m sx pc H. destruct i; discriminate.
+  - intros n p Hn H. destruct n; [contradiction|]. destruct n; discriminate.
+  - constructor.
+  - simpl. lia.
 Qed.
 End Init.
